@@ -19,7 +19,7 @@ CONSTANT Cmp      \* subset of {"store","em","costs","chan","life","met","cbs","
 
 VARIABLE l
 TraceVal == 1 .. 400
-CmpAll == {"store", "em", "costs", "chan", "life", "met", "cbs", "out"}
+CmpAll == {"store", "em", "costs", "chan", "life", "met", "cbs", "out", "vttl"}
 Rec == ndJsonDeserialize(IOEnv.TRACE)
 tvars == <<vars, l>>
 
@@ -99,7 +99,9 @@ Victims(a) == [j \in 1 .. Len(a.victims) |-> <<a.victims[j][1], a.victims[j][2]>
 TClient ==
     \/ Is("InsBegin") /\ Step(InsBegin(C, K, Ev.v, Ev.cost, Ev.d, Ev.only))
     \/ Is("InsSend") /\ Step(InsSend(C))
-    \/ Is("Get") /\ Step(Get(C, K))
+    \/ /\ Is("Get") /\ Step(Get(C, K))
+       \* the remaining ttl read through the returned ValueRef
+       /\ (("vttl" \in Cmp /\ Ev.out.t = "val") => Ev.vttl = TtlOf(store, K, now))
     \/ Is("GetMut") /\ Step(GetMut(C, K))
     \/ Is("GetTtl") /\ Step(GetTtl(C, K))
     \/ Is("RemStore") /\ Step(RemStore(C, K))
